@@ -123,7 +123,10 @@ def run_case(case):
         else:
             if mode == "periodic-exact":
                 # (edge lengths in ascending or descending order: c shorter or longer than b)
-                cells = [{"kind": "ortho", "L": [6.0, 7.5, 8.25] if case["seed"] % 2 else [8.25, 7.5, 6.0], "A": [90.0, 90.0, 90.0]}] * case["nf"]
+                # ... or a cell much smaller than the system along one or two axes (separations between half a short edge and half the
+                # long one; the system then overlaps its own images, which lattice translations do not alter)
+                Lx = [[8.25, 7.5, 6.0], [6.0, 7.5, 8.25], [5.0, 2.5, 1.75], [1.75, 2.5, 5.0]][case["seed"] % 4]
+                cells = [{"kind": "ortho", "L": Lx, "A": [90.0, 90.0, 90.0]}] * case["nf"]
             elif mode == "periodic-near-ortho":
                 # almost rectangular (angles 0.004 - 0.005 degrees off 90, off-diagonal components 4e-4 - 7e-4 nm): a triclinic cell all the same
                 cells = [{"kind": "near-ortho", "L": [6.0, 7.5, 8.25], "A": [90.004, 89.995, 90.0045]}] * case["nf"]
@@ -158,16 +161,16 @@ def run_case(case):
                 continue
             a, b = np.asarray(oa[name], dtype=np.float64), np.asarray(ob[name], dtype=np.float64)
             tol = ctol * (20 if name == "drid" else 4 if name == "gyration-eig" else 1)
-            if a.shape != b.shape or (np.abs(a - b) > tol + 1e-6 * np.abs(a)).any():
+            if a.shape != b.shape or (~(np.abs(a - b) <= tol + 1e-6 * np.abs(a))).any():
                 viol.append((name + "/changed", "max change %.3g (tolerance %.3g)" % (float(np.abs(a - b).max()) if a.shape == b.shape else -1, tol)))
         if "angles" in oa:
             a, b = oa["angles"].astype(np.float64), ob["angles"].astype(np.float64)
             atol = 4 * np.minimum(ctol / 0.09 / np.maximum(np.sin(a), 1e-9), np.sqrt(2 * ctol / 0.09)) + 1e-5
-            if (np.abs(a - b) > atol).any():
+            if (~(np.abs(a - b) <= atol)).any():
                 viol.append(("angles/changed", "max change %.3g" % float(np.abs(a - b).max())))
             a, b = oa["dihedrals"].astype(np.float64), ob["dihedrals"].astype(np.float64)
             d = np.abs((a - b + np.pi) % (2 * np.pi) - np.pi)
-            if (d > 1e-3 + 2e3 * ctol).any():
+            if (~(d <= 1e-3 + 2e3 * ctol)).any():
                 viol.append(("dihedrals/changed", "max change of a torsion (magnitude or sign) %.3g rad" % float(d.max())))
         if not periodic:
             ref_a = md.Trajectory(ta.xyz[:1].copy(), ta.topology)
@@ -176,7 +179,7 @@ def run_case(case):
             rb = md.rmsd(md.Trajectory(tb.xyz.copy(), tb.topology), ref_b, 0)
             S = 2 * float(((x[0] - x[0].mean(0)) ** 2).sum(1).mean())
             rt = np.sqrt(1024 * oracle.EPS32 * S) + 8 * ctol
-            if (np.abs(ra - rb) > rt).any():
+            if (~(np.abs(ra - rb) <= rt)).any():
                 viol.append(("rmsd/changed", "RMSD to the co-moved reference changed by %.3g" % float(np.abs(ra - rb).max())))
             sa, sb = oa["sasa"].astype(np.float64), ob["sasa"].astype(np.float64)
             if exact and case["rot"] == 0 and case["nf"] == 1:      # (further frames are rotated as well)
